@@ -2944,6 +2944,19 @@ def _peripheral_elements(fi, inherited=()):
     return out
 
 
+def _fail_soft_wrapper(fi):
+    """The body of the function is one ``try`` statement with an ``except Exception`` handler (plus, at most, the return of a
+    plain name / constant after it): whatever it runs, it does not raise."""
+    body = list(fi.node.body)
+    if body and isinstance(body[0], ast.Expr) and isinstance(body[0].value, ast.Constant) and isinstance(body[0].value.value, str):
+        body = body[1:]
+    if not body or not isinstance(body[0], ast.Try) or not any(handler_catches(h, 'Exception') for h in body[0].handlers):
+        return False
+    if any(isinstance(x, ast.Raise) for h in body[0].handlers for x in ast.walk(h)) or body[0].finalbody:
+        return False
+    return all(isinstance(st, ast.Return) and (st.value is None or isinstance(st.value, (ast.Name, ast.Constant))) for st in body[1:])
+
+
 def _other_peripheral_calls(repo, fi, judged, views, inherited=(), chain=(), seen=None):
     """[(function, call, chain)]: every *other* call of a method of a peripheral object -- ``<peripheral>.<m>(..)`` or
     ``inject(<peripheral>.<m>, ..)`` with ``m`` not among the ``judged`` names -- in ``fi`` and in the helpers of the views it
@@ -2970,7 +2983,12 @@ def _other_peripheral_calls(repo, fi, judged, views, inherited=(), chain=(), see
                 attr = target.attr
         if attr is not None:
             if attr not in judged:
-                out.append((fi, c, chain))
+                wrapper, wskip = resolve_callee(repo, fi, c) if c.func.__class__ is ast.Attribute and not _is_inject(fi, c) else (None, 0)
+                if wrapper is not None and wskip == 1 and _fail_soft_wrapper(wrapper):
+                    # a method the tree defines for all peripherals whose body *is* the fail-soft handler: judged inside
+                    out.extend(_other_peripheral_calls(repo, wrapper, judged, views, tuple(wrapper.params()[:1]), chain + ((fi, c),), seen))
+                else:
+                    out.append((fi, c, chain))
             continue
         callee, skip = resolve_callee(repo, fi, c)
         if callee is None or not (callee.mod is fi.mod or callee.key in views) or callee.name in ('get_main', 'render_main_page_html'):
